@@ -235,6 +235,40 @@ pub fn run(ctx: &mut Ctx, rep: &mut Report) {
             if let Some(fl) = fails.first() { rep.oracle_fail(fail_json(&net, "directed shifted positions", fl)); break; }
         }
     }
+    // directed: a recursive chain on ONE peer — visiting value n triggers a local call whose result (arriving in a later run) is
+    // value n+1; the peer only ever replays its own dense previous data, so this is outside the known sparse-replay class
+    {
+        let peers = peers_named(3);
+        let a = lit(&peers[0].id);
+        let mut guard = Instr::Null;
+        for (v, f) in [("r:link4", "link5"), ("r:link3", "link4"), ("r:link2", "link3"), ("r:link1", "link2"), ("v0", "link1")] {
+            guard = xor(matchv(sc("i"), lit(v), call(a.clone(), "svc", f, vec![], stream("$s"))), guard);
+        }
+        let body = seqs(vec![guard, call(a.clone(), "obs", "visit_1", vec![sc("i")], Out::None), next("i")]);
+        let script = seq(ap(lit("v0"), "$s"), fold_stream("$s", "i", body, None));
+        for round in 0..(if ctx.thorough { 10u64 } else { 3 }) {
+            let mut net = Net::new(&script.text(), &peers, &format!("c13-chain-{round}"));
+            let mut r2 = Rng::new(ctx.seed ^ 0xC13C ^ (round * 104729));
+            run_random_det(&mut net, &mut r2, 80);
+            drain(&mut net, &mut r2, 300);
+            let mut cache = Cache::new(true);
+            let views = step_views(&script, &net, &mut cache);
+            let hc = HistCtx { tpl: None, script: &script, net: &net, views: &views, recursive: true, located: views.iter().flatten().all(|v| v.out.locs.is_ok()) };
+            let fails = check_history(&hc, rep);
+            rep.case(&format!("directed-chain|{round}|{}", net.log.len()), true, || json!({"template": "directed recursive chain on one peer", "air": net.air, "runs": net.log.len()}));
+            rep.stat("directed_chain_histories");
+            corr.history(ctx, rep, &net, &["code", "trace", "requests"]);
+            // every link must have been visited: six values v0, r:link1 .. r:link5
+            let visited: std::collections::BTreeSet<String> = net.log.iter().flat_map(|st| crate::host::decode_requests(&st.outcome.call_requests).unwrap_or_default().into_values())
+                .filter(|r| r.service_id == "obs").map(|r| serde_json::to_string(&crate::sim::decode_args(&r)).unwrap_or_default()).collect();
+            if visited.len() != 6 {
+                rep.oracle_fail(json!({"why": format!("recursive chain on one peer: 6 values are appended one after another (each by the visit of the previous one), the fold body was invoked for {} of them: {:?}", visited.len(), visited),
+                    "input": crate::props::hist::step_json(&net, net.log.last().unwrap()), "history": history_json(&net), "scenario": "c13 directed chain"}));
+                break;
+            }
+            if let Some(fl) = fails.iter().find(|f| !f.why.is_empty()) { let j = fail_json(&net, "directed recursive chain", fl); if j.get("finding_key").is_none() { rep.oracle_fail(j); break; } }
+        }
+    }
     let setup = Setup { prop: "C13", fields: &["code", "trace", "requests"], families: vec![Family::FoldVisit, Family::RecursiveFold, Family::WritersCanon, Family::RecursiveFold, Family::NewScopes, Family::FoldVisit, Family::NestedFolds, Family::StreamMap, Family::ParCanons],
         histories: (160, 3000), generated: (60, 2000), seed_salt: 0xC13, time_guard: (45, 700) };
     let (mut rec, mut rec_tainted) = (0u64, 0u64);
